@@ -1,6 +1,7 @@
 package main
 
 import (
+	"go/token"
 	"fmt"
 	"go/types"
 	"math/big"
@@ -1026,4 +1027,28 @@ func (fx *FuncExec) heapLocalByName(fn *ssa.Function, name string) *ssa.Alloc {
 		}
 	}
 	return found
+}
+
+// allocInScope resolves a local variable name the way the compiler would at source position pos: the innermost
+// declaration visible there. Returns nil when pos is unknown or the name is not a local of fn.
+func (fx *FuncExec) allocInScope(fn *ssa.Function, name string, pos token.Pos) *ssa.Alloc {
+	if !pos.IsValid() || fn.Pkg == nil || strings.Contains(name, "#") {
+		return nil
+	}
+	sc := fn.Pkg.Pkg.Scope().Innermost(pos)
+	if sc == nil {
+		return nil
+	}
+	_, obj := sc.LookupParent(name, pos)
+	if obj == nil || !obj.Pos().IsValid() {
+		return nil
+	}
+	for _, b := range fn.Blocks {
+		for _, in := range b.Instrs {
+			if a, ok := in.(*ssa.Alloc); ok && a.Comment == name && a.Pos() == obj.Pos() {
+				return a
+			}
+		}
+	}
+	return nil
 }
